@@ -7,6 +7,7 @@ import MosnVerif.Lemmas.TransferLookup
 import MosnVerif.Lemmas.UpgTiming
 import MosnVerif.Lemmas.UpgHandshake
 import MosnVerif.Lemmas.HandoverQueue
+import MosnVerif.Lemmas.H1Drain
 /-!
 # C11 — graceful shutdown and hot upgrade lose no requests (property theorems only; level `other`)
 
@@ -407,6 +408,74 @@ example : (runWith dropAllRule H2GoAway.Conn.initial [.headers 1 false (some 300
 example : (H2GoAway.run H2GoAway.Conn.initial [.headers 1 false none, .data 7 1 false, .data 1 5 true]).2 =
     [Out.goAway 1 1, Out.closed] := by decide
 end h2goaway
+
+/-! ## the drain mark of an HTTP/1 server connection (hot upgrade: `Connection: close` on the next response) -/
+section H1DrainProps
+open MosnVerif.Model MosnVerif.Lemmas.H1Drain
+
+/-- **h1_goaway_sticky**: for EVERY interleaving of the mark (the transfer event of the old process's read loop) with
+request-parse and response-write events — `pre` is whatever happened on the connection before the mark (idle, a request
+outstanding, several keep-alive requests served), `post` whatever happens after it (the rest of a half-received request
+is parsed, the upstream answers, further requests arrive): the mark is never cleared, and after the mark the
+connection writes at most ONE more response — it carries `Connection: close` and the connection is closed right after
+it (or nothing is written and the connection stays open, still marked).  The assignment rules are the regenerated
+`markUpdate` / `parseUpdate`, the close decision the regenerated `respCloses`. -/
+theorem h1_goaway_sticky (pre post : List H1Drain.Ev) :
+    let c := (H1Drain.run H1Drain.Conn.initial (pre ++ [H1Drain.Ev.mark])).1
+    c.flag = true ∧ (H1Drain.run c post).1.flag = true ∧
+    (c.closed = false →
+      ((H1Drain.run c post).2 = [] ∧ (H1Drain.run c post).1.closed = false) ∨
+      ((H1Drain.run c post).2 = [H1Drain.Out.resp true, H1Drain.Out.closed] ∧ (H1Drain.run c post).1.closed = true)) ∧
+    (c.closed = true → (H1Drain.run c post).2 = []) := by
+  intro c
+  have hf : c.flag = true := by
+    show (H1Drain.run H1Drain.Conn.initial (pre ++ [H1Drain.Ev.mark])).1.flag = true
+    rw [run_append, run_cons, run_nil]
+    exact mark_sets (H1Drain.run H1Drain.Conn.initial pre).1.flag
+  exact ⟨hf, run_flag c post hf, fun hc => run_marked c post hf hc, fun hc => run_closed c post hc⟩
+
+/-- the first response after the mark IS written with `Connection: close`: whether a request was outstanding at the
+mark (`cur = some rc`: parsed and waiting for the upstream) and its response ends, or the connection was idle / a
+request half received and the (rest of the) request is parsed and answered — each followed by anything. -/
+theorem h1_first_response_after_mark_closes (pre rest : List H1Drain.Ev) (rc : Bool) :
+    let c := (H1Drain.run H1Drain.Conn.initial (pre ++ [H1Drain.Ev.mark])).1
+    c.closed = false →
+    (c.cur.isSome = true → (H1Drain.run c (H1Drain.Ev.respond :: rest)).2 = [H1Drain.Out.resp true, H1Drain.Out.closed]) ∧
+    (c.cur = none → (H1Drain.run c (H1Drain.Ev.parse rc :: H1Drain.Ev.respond :: rest)).2 = [H1Drain.Out.resp true, H1Drain.Out.closed]) := by
+  intro c hc
+  have hf : c.flag = true := (h1_goaway_sticky pre []).1
+  have key : ∀ (d : H1Drain.Conn) (r : Bool), d.cur = some r → d.closed = false → d.flag = true →
+      (H1Drain.step d H1Drain.Ev.respond).2 = [H1Drain.Out.resp true, H1Drain.Out.closed] ∧
+      (H1Drain.step d H1Drain.Ev.respond).1.closed = true := by
+    intro d r h1 h2 h3
+    simp [H1Drain.step, H1Drain.stepWith, h1, h2, h3, resp_of_mark r]
+  constructor
+  · intro hcur
+    obtain ⟨r, hr⟩ := Option.isSome_iff_exists.mp hcur
+    have h1 := key c r hr hc hf
+    rw [run_cons, h1.1, run_closed _ rest h1.2]; rfl
+  · intro hcur
+    have hp : (H1Drain.step c (H1Drain.Ev.parse rc)).2 = [] ∧ (H1Drain.step c (H1Drain.Ev.parse rc)).1.closed = false ∧
+        (H1Drain.step c (H1Drain.Ev.parse rc)).1.cur = some rc := by
+      refine ⟨?_, ?_, ?_⟩ <;> simp [H1Drain.step, H1Drain.stepWith, hc, hcur]
+    have h1 := key _ rc hp.2.2 hp.2.1 (step_flag c _ hf)
+    rw [run_cons, hp.1, run_cons, h1.1, run_closed _ rest h1.2]; rfl
+
+-- non-vacuity: a keep-alive connection serves requests without `Connection: close` until it is marked; the mark while
+-- idle, while a request waits for the upstream, and while the response is being written (ordered after that respond)
+example : (H1Drain.run H1Drain.Conn.initial [.parse false, .respond, .parse false, .respond]).2 = [.resp false, .resp false] := by decide
+example : (H1Drain.run H1Drain.Conn.initial [.parse false, .respond, .mark, .parse false, .respond, .parse false, .respond]).2 =
+    [.resp false, .resp true, .closed] := by decide
+example : (H1Drain.run H1Drain.Conn.initial [.parse false, .mark, .respond, .parse false]).2 = [.resp true, .closed] := by decide
+example : (H1Drain.run H1Drain.Conn.initial [.parse false, .respond, .mark]).1.closed = false := by decide
+/-- negation witness (the seeded defect class: the mark overwritten by every parsed request): a keep-alive client whose
+connection was marked while idle is never told to reconnect -/
+theorem h1_overwrite_loses_mark :
+    (H1Drain.runWith H1Drain.overwriteRules H1Drain.Conn.initial [.parse false, .respond, .mark, .parse false, .respond, .parse false, .respond]).2 =
+    [.resp false, .resp false, .resp false] := by decide
+
+end H1DrainProps
+
 
 /-! ## stage manager -/
 
